@@ -79,6 +79,13 @@ type Script struct {
 	inflight atomic.Int32
 }
 
+// SetOnCancel replaces the cancel hook.
+func (s *Script) SetOnCancel(f func()) {
+	s.mu.Lock()
+	s.OnCancel = f
+	s.mu.Unlock()
+}
+
 // WaitIdle waits until no Read call is in flight (a client may have abandoned one) or the ceiling passes; it reports whether
 // the transport is idle.
 func (s *Script) WaitIdle(ceiling time.Duration) bool {
